@@ -39,7 +39,11 @@ def norm(k):
 
 def ws_variant(rng, key):
   """Whitespace variant of a key that the property says must still match."""
-  if rng.random() < 0.5:
+  c_ = rng.random()
+  if c_ < 0.08:
+    # an item list read from a file with readlines() / CRLF line ends: the key carries the line break
+    return rng.choice([key + "\r", key + "\n", key + " \r\n", "\n" + key, key + "\x0c"])
+  if c_ < 0.5:
     return key
   out = ""
   for ch in key:
